@@ -288,11 +288,12 @@ structure Start (F : Frame) (b : Bytes) (sB : St) (statsB : List LineStat) : Pro
   fence : sB.pc.fence = none
   skipList : sB.pc.skipList = false
   eib : F.flag = true → sB.pc.emptyItemBlank = false
+  old : ∀ i, 1 ≤ i → i ≤ F.c → sB.nodes.getD i default = F.oldNodes.getD i default
   stale : ∀ e ∈ statsB, e.lineNum < F.dl
   first : statsB = [] ∨ isBlankLine (F.dl - 1) 0 statsB = true
 
 theorem start_srw {sB : St} {statsB : List LineStat} (hS : Start F b sB statsB) : SRw F b (initSt b) sB := by
-  refine ⟨⟨_, ri_init b⟩, hS.r, ⟨by simp [initSt], by simp [initSt, hS.len], fun j => ?_, by simp [initSt]⟩,
+  refine ⟨⟨_, ri_init b⟩, hS.r, ⟨by simp [initSt], by simp [initSt, hS.len], fun j => ?_, by simp [initSt], hS.old⟩,
     ⟨by rw [hS.opened]; rfl, by rw [hS.tmpPara]; rfl, by rw [hS.fence]; rfl, by rw [hS.skipList]; rfl, fun hf => by rw [hS.eib hf]; rfl⟩⟩
   by_cases hj : j = 0
   · subst hj
